@@ -136,6 +136,45 @@ class FakeSolver:
         return np.array(self.ret, copy=True)
 
 
+class InnerFault:
+    """A third seam: the names cell.py imported from boundary.py
+    (`boundaryConditionsTerm`, `cellValuesWithBoundaries`) are replaced for the
+    duration of ONE library call by a wrapper that raises MemoryError on its n-th
+    invocation - an allocation failure inside apply_BCs(), between the refresh of
+    the ghost layer and the rebuild of the cached boundary term, or before either.
+    If the library does not reach these functions through the patched names (any
+    more) the wrapper never fires and the call simply runs unpatched."""
+    TARGETS = {"alloc_cache": "boundaryConditionsTerm", "alloc_ghost": "cellValuesWithBoundaries"}
+
+    def __init__(self, kind, nth):
+        self.kind = kind
+        self.nth = max(1, int(nth))
+        self.calls = 0
+        self.fired = False
+        self.mod = A.cell_module()
+        self.name = self.TARGETS[kind]
+        self.orig = getattr(self.mod, self.name, None)
+
+    def __enter__(self):
+        if self.orig is None:
+            return self
+        orig = self.orig
+
+        def wrapper(*args, **kw):
+            self.calls += 1
+            if self.calls == self.nth:
+                self.fired = True
+                raise MemoryError("injected allocation failure in %s" % self.name)
+            return orig(*args, **kw)
+        setattr(self.mod, self.name, wrapper)
+        return self
+
+    def __exit__(self, *exc):
+        if self.orig is not None:
+            setattr(self.mod, self.name, self.orig)
+        return False
+
+
 ALL_INV = ("I1", "I2", "I3", "I4", "I5", "I6", "I7", "I8")
 
 
@@ -1283,11 +1322,25 @@ class World:
     def op_apply(self, a, op, ctx):
         vent = self.get(a["v"], "v")
         before = vent.meta["val"]
+        inner = InnerFault(a["inner"], a.get("nth", 1)) if a.get("inner") else None
         try:
-            vent.obj.apply_BCs()
+            if inner is not None:
+                with inner:
+                    vent.obj.apply_BCs()
+            else:
+                vent.obj.apply_BCs()
         except Exception as ex:
             ctx.status = "raised:" + type(ex).__name__
-            self._note_consumer_fault(vent, ctx)
+            if inner is not None and inner.fired:
+                ctx.fault = inner.kind
+                self.stats["fault-fired:" + inner.kind] += 1
+                vent.meta["faulted_at"] = self.step
+                vent.meta["fault_kind"] = inner.kind
+                st = self.abstract_state(vent)
+                if st[3] or st[4]:
+                    self.probes["fault-while-target-dirty"] += 1
+            else:
+                self._note_consumer_fault(vent, ctx)
         else:
             vent.meta["ghost_trusted"] = True
             ctx.i4.append(vent.name)
@@ -1398,8 +1451,12 @@ class World:
             mode = {"def_record": "ext", "def_raise": "ext_raise"}[mode]
             self.probes["seam:default-solver-patched"] += 1
         fake = FakeSolver(mode) if mode else None
+        inner = InnerFault(a["inner"], a.get("nth", 1)) if a.get("inner") else None
         try:
-            if via_default:
+            if inner is not None:
+                with inner:
+                    ret = pf.solvePDE(vent.obj, user_terms)
+            elif via_default:
                 orig_sp = self.ps.spsolve
                 self.ps.spsolve = fake
                 try:
@@ -1429,6 +1486,8 @@ class World:
             fault = "solver_badshape"
         elif has_bad:
             fault = bad_kind
+        if inner is not None and inner.fired:
+            fault = inner.kind
         if got[0] == "raise":
             ctx.status = "raised:" + got[1]
             if fault is None:
@@ -1493,7 +1552,12 @@ class World:
             self.stats["fault-fired:singular"] += 1
             ctx.fault = ctx.fault or "singular"
         vent.meta["last_consume"] = self.step
-        if got[0] == "raise" and twin is not None and not degenerate:
+        if got[0] == "raise" and inner is not None and inner.fired:
+            # the allocation failed inside apply_BCs(): at the exit of solvePDE the
+            # solution is already stored; the stored values are re-read
+            ctx.written.add(vent.name)
+            vent.meta["ghost_trusted"] = False
+        elif got[0] == "raise" and twin is not None and not degenerate:
             # a failed call may refresh the target's derived state (ghosts, cached
             # boundary term) but must not leave anything else in it, and must not
             # touch the stored solution: the frame check judges the target too
